@@ -50,3 +50,17 @@ Definition ptr_cmp (p : pbranch) (op : cmpop) (a b : Z) : bool :=
   | PSignedDiff => zcmp op (wrapS64 (a - b)) 0
   end.
 Arguments ptr_cmp : simpl never.
+
+(* ---- cdata_hash (src/c/_cffi_backend.c, `static Py_hash_t cdata_hash(PyObject *v)`) as a program: the list of
+   arms tried in source order before the final `return _Py_HashPointer(c_data)`; its current text is
+   regenerated into C17/Gen.v (hash_prog).  Arms the translator knows:
+     HConvert      if (ct_flags & CT_PRIMITIVE_ANY) { vv = convert_to_object(c_data, c_type);
+                       if (vv == NULL) return -1;
+                       if (!CData_Check(vv)) { hash = PyObject_Hash(vv); Py_DECREF(vv); return hash; }
+                       Py_DECREF(vv); }                       -- falls through when vv is again a cdata
+     HNonnegSelf   (inside the CT_PRIMITIVE_ANY block, before the conversion)
+                   if ((ct_flags & (CT_PRIMITIVE_SIGNED|CT_PRIMITIVE_FITS_LONG)) == (both)) {
+                       value = (long)read_raw_signed_data(c_data, ct_size);
+                       if (value >= 0) return (Py_hash_t)value; }
+   Any other text is outside the translated subset (the run reports a fallback, fail closed). *)
+Inductive harm := HConvert | HNonnegSelf.
